@@ -394,6 +394,27 @@ StepNote ==
     /\ g' = g
     /\ alive' = (alive /\ Ev.act # "Crash")
 
+\* The operator's view (teos-cli): everything it reports is a function of the state.  What it says about a user's slots and
+\* expiry is one more copy of the balance "on the wire" (C07); the rest are notes (tag owner CLI: no listed property).
+StepCli ==
+    /\ Ev.act = "Cli"
+    /\ LET exp == CliViewF(st, ToSetOf(Ev.asked))
+           r == Ev.reply
+           pu == {<<x[1], x[2], x[3], x[4], ToSetOf(x[5])>> : x \in ToSetOf(r.per_user)}
+       IN tags' = tags
+            \cup (IF Ev.abort # "" THEN T("C11", "abort:" \o Ev.abort)
+                  ELSE IF r.code # "ok" THEN T("CLI", "refused")
+                  ELSE (IF {<<x[1], x[2], x[3], x[4]>> : x \in pu} # {<<x[1], x[2], x[3], x[4]>> : x \in exp.per_user} THEN T("C07", "cli.reported") ELSE {})
+                       \cup (IF pu # exp.per_user THEN T("CLI", "user_appointments") ELSE {})
+                       \cup (IF r.n_users # exp.n_users \/ ToSetOf(r.users) # exp.users THEN T("CLI", "users") ELSE {})
+                       \cup (IF r.n_appts # exp.n_appts \/ Len(r.appts) # exp.n_appts
+                                 \/ {<<x[1], x[2], x[3], x[4], x[5]>> : x \in ToSetOf(r.appts)} # exp.appts THEN T("CLI", "appointments") ELSE {})
+                       \cup (IF r.n_trackers # exp.n_trackers \/ Len(r.trackers) # exp.n_trackers
+                                 \/ {<<x[1], x[2]>> : x \in ToSetOf(r.trackers)} # exp.trackers THEN T("CLI", "trackers") ELSE {})
+                       \cup (IF r.reachable # exp.reachable THEN T("C12", "cli.reachable") ELSE {}))
+    /\ UNCHANGED <<st, g>>
+    /\ alive' = (alive /\ Ev.abort = "")
+
 \* C03: after a crash in the middle of chain processing, restart and catch-up, the durable state equals the one of the
 \* uninterrupted run of the same history (heights of unconfirmed trackers aside).
 StepRefFinal ==
@@ -597,7 +618,7 @@ Next ==
     /\ l <= Len(Rec)
     /\ l' = l + 1
     /\ \/ StepInit \/ StepBoot \/ StepRegister \/ StepAdd \/ StepGet \/ StepSub
-       \/ StepGkConnect \/ StepWConnect \/ StepRConnect \/ StepDisc \/ StepPollEnd \/ StepNote \/ StepRefFinal \/ StepFlag \/ StepHung \/ StepDied \/ StepConc \/ StepRestore \/ StepChain \/ StepEnd
+       \/ StepGkConnect \/ StepWConnect \/ StepRConnect \/ StepDisc \/ StepPollEnd \/ StepNote \/ StepCli \/ StepRefFinal \/ StepFlag \/ StepHung \/ StepDied \/ StepConc \/ StepRestore \/ StepChain \/ StepEnd
 
 Spec == Init /\ [][Next]_vars
 =============================================================================
